@@ -540,6 +540,28 @@ def mono_pair(m, se, a, b):
     return None
 
 
+def op_count(n):
+    """number of distinct rounded arithmetic operations in a residual"""
+    seen = set()
+    stack = [n]
+    c = 0
+    while stack:
+        x = stack.pop()
+        if not isinstance(x, tuple) or x in seen:
+            continue
+        seen.add(x)
+        if x[0] in ("add", "sub", "mul", "div"):
+            if not (F.is_lit(x[1]) and F.is_lit(x[2])):
+                c += 1
+            stack.extend(x[1:])
+        elif x[0] == "neg":
+            stack.append(x[1])
+        elif x[0] == "fn":
+            c += 1
+            stack.extend(a for a in x[2:] if isinstance(a, tuple))
+    return c
+
+
 def r_const_width_monotone(ctx, db, est, ln, consts=None):
     from sign import SignEnv
     fp = est.m("with_const_width", None)
@@ -561,7 +583,11 @@ def r_const_width_monotone(ctx, db, est, ln, consts=None):
     se = SignEnv(m, {})
     bad = None
     for i in range(1, len(edges) - 1):
-        r = mono_pair(m, se, edges[i], edges[i + 1])
+        a_, b_ = edges[i], edges[i + 1]
+        # running sum: edge[i+1] = edge[i] + (something >= 0)
+        if b_[0] == "add" and ((b_[1] == a_ and se.of(b_[2]) in ("pos", "nonneg", "zero")) or (b_[2] == a_ and se.of(b_[1]) in ("pos", "nonneg", "zero"))):
+            continue
+        r = mono_pair(m, se, a_, b_)
         if r not in ("inc", "const"):
             bad = (i, r)
             break
@@ -570,6 +596,12 @@ def r_const_width_monotone(ctx, db, est, ln, consts=None):
     first_ok = edges[0] == a and se.of(F.mk("sub", e1, a)) in ("pos", "nonneg", "zero") if e1[0] != "add" else (
         edges[0] == a and (e1[1] == a and se.of(e1[2]) in ("pos", "nonneg", "zero") or e1[2] == a and se.of(e1[1]) in ("pos", "nonneg", "zero")))
     ok = bad is None and first_ok
+    # R-ULPS: "within a few ulps" needs a bounded number of roundings per edge, independent of the index
+    worst = max((op_count(e) for e in edges), default=0)
+    ctx.ob("R-ULPS", "const-width:bounded-roundings:LEN=%d" % ln, fp, fsite, worst <= 5,
+           "every edge is computed from start and end by at most %d rounded operations%s" % (
+               worst, "" if worst <= 5 else " — the count grows with the bin index, so rounding errors accumulate beyond a few ulps (e.g. edge %d = %s)" % (
+                   len(edges) - 1, F.show(edges[-1])[:140])))
     ctx.ob("R-MONO", "const-width:non-decreasing:LEN=%d" % ln, fp, fsite, ok,
            "every edge is obtained from the bin index by operations that are each non-decreasing in the index (IEEE rounding is monotone), "
            "so the %d edges are non-decreasing for start < end" % len(edges) if ok else
